@@ -72,12 +72,17 @@ Definition pcode_std (p : punct) : N :=
   end.
 
 (* Document::new_plain_english(src); a lint with span [s,e); LintContext::from_lint: the token indices and, per
-   context token, its span and the hashed fat token (blanked kind, content).  None = a panic. *)
-Definition run_plain_ascii (src : text) (s e : nat) : option (list nat * list (span * Ignore.ftok)) :=
+   context token, its span and the hashed fat token (blanked kind, content).  None = a panic.
+   `u` = the Unicode predicates: stream Q loads the four range tables dumped from Rust's char methods (as C02's
+   driver does), so the texts need not be ASCII. *)
+Definition run_plain_uni (u : uni) (src : text) (s e : nat) : option (list nat * list (span * Ignore.ftok)) :=
   let l := Ignore.mkilint (mkspan s e) 0%N [] [] 0%N in
-  match run_plain_context pcode_std (fun _ => 0%N) (fun _ => 0%N) ascii_uni (fun _ => None) src l with
+  match run_plain_context pcode_std (fun _ => 0%N) (fun _ => 0%N) u (fun _ => None) src l with
   | Some (ts, idx, fts) =>
       let d := doc_of pcode_std (fun _ => 0%N) (fun _ => 0%N) (fun _ => None) src ts in
       Some (idx, combine (map Ignore.tspan (Ignore.get_tokens (Ignore.dtoks d) idx)) fts)
   | None => None
   end.
+(* the ASCII restriction (used before the tables are loaded) *)
+Definition run_plain_ascii (src : text) (s e : nat) : option (list nat * list (span * Ignore.ftok)) :=
+  run_plain_uni ascii_uni src s e.
